@@ -1,9 +1,12 @@
 #!/bin/bash
 # Run every registered check once (tier from $1, default quick); summary at the end.
 cd "$(dirname "$(readlink -f "$0")")"
+# usage: run_all.sh [tier] [property ...]
 tier=${1:-quick}
+shift
+props=${@:-C01 C02 C03 C04 C05 C06 C07 C08 C09 C10 C11 C12 C13 C14 C15 C16 C17 C18 C19 C20}
 fail=0
-for p in C01 C02 C03 C04 C05 C06 C07 C08 C09 C10 C11 C12 C13 C14 C15 C16 C17 C18 C19 C20; do
+for p in $props; do
   s=$(date +%s)
   out=$(./check.py $p --tier $tier 2>&1); rc=$?
   e=$(( $(date +%s) - s ))
